@@ -96,7 +96,6 @@ type parMonitor struct {
 	events  []int64
 	storing map[int]bool
 	dcount  int64
-	goids   sync.Map
 }
 
 func (m *parMonitor) record(kind int, species int) {
@@ -119,8 +118,6 @@ func (m *parMonitor) Constructed(c *Ctx, sc *EvoScenario, pop *genetics.Populati
 		x := splitmix(uint64(m.dseed) + uint64(n))
 		return time.Duration(int64(x%uint64(max))) * time.Microsecond
 	}
-	current := sync.Map{} // goroutine -> species is not observable; the species of a store is taken from the last ReproduceStart on the same goroutine via the events order
-	_ = current
 	genetics.VerifHooks.InnovationStored = func(p *genetics.Population, inn genetics.Innovation) {
 		if inner != nil {
 			inner(p, inn)
